@@ -39,13 +39,29 @@ theorem find_insertSorted_other (h h' : String) (it : Item) (l : List (String ×
         · have : (k == h') = false := by simpa using hk
           simp [List.find?, this, ih]
 
+theorem find_filter_other (h h' : String) (l : List (String × Item)) (hne : h' ≠ h) :
+    (l.filter (fun e => e.1 != h)).find? (fun e => e.1 == h') = l.find? (fun e => e.1 == h') := by
+  induction l with
+  | nil => rfl
+  | cons e rest ih =>
+    by_cases hk : e.1 = h
+    · have h1 : (e.1 != h) = false := by simp [hk]
+      have h2 : (e.1 == h') = false := by simp [hk, Ne.symm hne]
+      simp [List.filter, h1, List.find?, h2, ih]
+    · have h1 : (e.1 != h) = true := by simp [hk]
+      by_cases hk' : (e.1 == h') = true
+      · simp [List.filter, h1, List.find?, hk']
+      · have : (e.1 == h') = false := by simpa using hk'
+        simp [List.filter, h1, List.find?, this, ih]
+
 /-- the last successful write to a name wins -/
 theorem item_put_same (c : Coll) (h : String) (it : Item) : item? (c.put h it) h = some it := by
-  simp [item?, Coll.put, find_insertSorted_same]
+  simp [item?, Coll.put, putEntry, find_insertSorted_same]
 
 /-- … and other names are untouched -/
 theorem item_put_other (c : Coll) (h h' : String) (it : Item) (hne : h' ≠ h) : item? (c.put h it) h' = item? c h' := by
-  simp [item?, Coll.put, find_insertSorted_other h h' it c.items hne]
+  simp only [item?, Coll.put, putEntry]
+  rw [find_insertSorted_other h h' it _ hne, find_filter_other h h' c.items hne]
 
 /-- a deleted name is gone -/
 theorem item_del_same (c : Coll) (h : String) : item? (c.del h) h = none := by
